@@ -19,12 +19,19 @@ RULE = ('component patterns: strings over a weighted alphabet of letters, glob m
         'trees: random real directory trees under /var/tmp (depth <= 4, symlinked dirs, hidden and backup names, names '
         'with metacharacters and spaces); filters: 1..3 includes x extra x exclude x filter_fn x type; '
         'exhaustive sweep: all patterns of <= 4 (quick: 3) components over {a,b,*,**,a*,?} x all paths of depth <= 4 '
-        '(quick: 3) over {a,b,ab} x file/dir.  A case is non-trivial when the pattern has a glob component and the path '
+        'over {a,b,ab} x file/dir.  A case is non-trivial when the pattern has a glob component and the path '
         'is non-empty; distinct by (pattern, type, path).')
 TRUSTED = ('brute-force Python reading of the documented glob rules (spec_match in harness/c11.py) used as the direct oracle',
            'Python fnmatch.fnmatchcase as the reference for one component',
            'path normalisation (Path.__init__/append/split) is taken from the implementation (owned by C12)')
-EXPLANATION = ''
+EXPLANATION = ('Model: coq/theories/Find/{Glob,Filter,Walk}.v mirror glob.py (fnmatch.translate incl. bracket expressions, '
+               '_compile_glob, _match_base, _match_glob_run(s) with the greedy offset loop, match, NameGlob) and builtins/find.py '
+               '(FindResult, FileFilter._match_globs/match/__eq__, _find_files with in-place pruning over path.walk, find_from_filter '
+               'with FindCache and dist registration; cache-hit branch switchable, fixed = repo commit 491a34f). Stages: W:fnmatch, '
+               'W:pathglob, W:nameglob, W:find (real temp trees), W:session (real BuildContext), W:sweep (exhaustive); oracles: '
+               'brute-force documented rules for match and for find (unpruned walk + match), never-soundness on the implementation, '
+               'found entries exist, dist contains found and extra, cache does not change results; name probe for entry names that '
+               'Path.append rewrites (known findings).')
 
 warnings.simplefilter('ignore', FutureWarning)
 
@@ -132,6 +139,8 @@ def gen_pattern(rng, rep=None):
     s = '/'.join(comps)
     if rng.random() < 0.25:
         s += '/'
+    if rng.random() < 0.04:
+        s = '/' + s          # absolute pattern (root becomes Root.absolute)
     t = rng.choice([None, None, None, 'f', 'd', '*'])
     root = rng.choice(['srcdir', 'srcdir', 'srcdir', 'builddir'])
     return s, t, root
@@ -826,6 +835,14 @@ def stage_name_probe(rep):
             if got != sorted([name, 'ok.c']):
                 rep.fail('a directory containing a file named %r: find_files("*") gives %r instead of both files' % (name, got),
                          {'kind': 'name', 'name': name, 'got': got}, classes=(cls,))
+        # an absolute pattern whose first glob component sits directly under the root
+        from bfg9000.glob import PathGlob
+        rep.case('name:/*.c', True)
+        try:
+            PathGlob('/*.c')
+        except Exception as e:
+            rep.fail('PathGlob("/*.c") raises %s: %s' % (type(e).__name__, e), {'kind': 'name', 'pattern': '/*.c'},
+                     classes=('absolute-root-level-glob',))
     finally:
         shutil.rmtree(root, ignore_errors=True)
 
@@ -843,7 +860,7 @@ def run(rep):
     rng = random.Random(rep.seed)
     thorough = rep.tier == 'thorough'
     rep.proof_stage(coqchk=thorough)
-    n = 6000 if thorough else 1200
+    n = 10000 if thorough else 1600
     dis = stage_w_fnmatch(rep, rng, n)
     report_dis(rep, dis, 0)
     dis, found = stage_w_pathglob(rep, rng, n // 2)
@@ -855,14 +872,14 @@ def run(rep):
     dis = stage_w_nameglob(rep, rng, n // 2)
     report_dis(rep, dis, 0)
     recorded = [c for c in load_corpus() if c.get('kind') == 'find']
-    dis, found = stage_walk(rep, rng, 60 if thorough else 12, 12 if thorough else 8, recorded)
+    dis, found = stage_walk(rep, rng, 150 if thorough else 25, 12 if thorough else 10, recorded)
     if dis and not found:
-        found = stage_walk(rep, random.Random(rep.seed + 1), 120, 12)[1]
+        found = stage_walk(rep, random.Random(rep.seed + 1), 250, 12)[1]
     report_dis(rep, dis, found)
-    dis, found = stage_session(rep, rng, 40 if thorough else 8, 8)
+    dis, found = stage_session(rep, rng, 100 if thorough else 15, 8)
     report_dis(rep, dis, found)
     if not swept:
-        dis, found = stage_sweep(rep, 4 if thorough else 3, 4 if thorough else 3)
+        dis, found = stage_sweep(rep, 4 if thorough else 3, 4)
         report_dis(rep, dis, found)
     stage_name_probe(rep)
 
